@@ -64,12 +64,41 @@ Theorem C14_all_written_reachable :
 Proof. exact all_written_reachable. Qed.
 Print Assumptions C14_all_written_reachable.
 
-(* known finding F23: without the hypothesis that the input directory itself is processed
-   the statement is false (sub pages written, no top index) *)
-Theorem C14_top_without_cmake_refuted :
-  ltac:(let t := type of all_written_reachable_refuted in exact t).
-Proof. exact all_written_reachable_refuted. Qed.
-Print Assumptions C14_top_without_cmake_refuted.
+(* former finding F23, repaired in the program: with auto-exclusion the input directory of a
+   recursive run is processed even when it holds no .cmake file itself, so the statement needs
+   no hypothesis about the input directory ... *)
+Theorem C14_all_written_reachable_recursive :
+  forall st hdrs docfn excl, all_ok docfn -> ws_out st = true -> excl [] true = false ->
+  ws_recursive st = true ->
+  forall base top p, In p (write_paths (document st hdrs docfn excl base (KDir top))) ->
+    reachable st hdrs excl (run_prefix st base) (document st hdrs docfn excl base (KDir top)) p.
+Proof. exact all_written_reachable_recursive. Qed.
+Print Assumptions C14_all_written_reachable_recursive.
+
+(* ... and the top index.rst is always written, whatever the files do (no all_ok) *)
+Theorem C14_top_index_always_written_recursive :
+  forall st hdrs docfn excl, ws_out st = true -> ws_recursive st = true -> excl [] true = false ->
+  forall base children,
+    In (AWrite [index_rst] (index_of st hdrs excl (run_prefix st base) [] children))
+       (document st hdrs docfn excl base (KDir children)).
+Proof. exact top_index_always_written_recursive. Qed.
+Print Assumptions C14_top_index_always_written_recursive.
+
+(* without --recursive an input directory that is not processed writes nothing, hence the
+   hypothesis of C14_all_written_reachable can be dropped altogether *)
+Theorem C14_all_written_reachable_always :
+  forall st hdrs docfn excl, all_ok docfn -> ws_out st = true -> excl [] true = false ->
+  forall base top p, In p (write_paths (document st hdrs docfn excl base (KDir top))) ->
+    reachable st hdrs excl (run_prefix st base) (document st hdrs docfn excl base (KDir top)) p.
+Proof. exact all_written_reachable_always. Qed.
+Print Assumptions C14_all_written_reachable_always.
+
+(* the old F23 witness (top without .cmake, sub-directory with one, recursive, auto-exclusion):
+   the top index.rst is written first and lists sub/index.rst *)
+Theorem C14_top_without_cmake_indexed :
+  ltac:(let t := type of top_without_cmake_indexed in exact t).
+Proof. exact top_without_cmake_indexed. Qed.
+Print Assumptions C14_top_without_cmake_indexed.
 
 Theorem C14_source_literals_pinned :
   get (s"document") init_strings
